@@ -183,7 +183,7 @@ class Monitor(cmd.Cmd):
         self.byteFmt = self._mpu.BYTE_FORMAT
         self.addrMask = self._mpu.addrMask
         self.byteMask = self._mpu.byteMask
-        if getc_addr and putc_addr:
+        if getc_addr is not None and putc_addr is not None:
             self._install_mpu_observers(getc_addr, putc_addr)
         self._address_parser = AddressParser(maxwidth=self.addrWidth)
         self._disassembler = Disassembler(self._mpu, self._address_parser)
@@ -307,7 +307,7 @@ class Monitor(cmd.Cmd):
 
     def do_reset(self, args):
         klass = self._mpu.__class__
-        self._reset(mpu_type=klass)
+        self._reset(klass, self.getc_addr, self.putc_addr)
 
     def do_mpu(self, args):
         def available_mpus():
